@@ -90,6 +90,12 @@ Definition call (fn : string) (args : list gval) : option gval :=
   | "uint128.New", [VU64 l; VU64 h] => Some (VU128 h l)
   | "Cmp", [VU128 ah al; VU128 bh bl] => Some (VInt (cmp_int (u128_cmp (ah, al) (bh, bl))))
   | "Equals", [VU128 ah al; VU128 bh bl] => Some (VBool (u128_eqb (ah, al) (bh, bl)))
+  | "getElection", [VPtr fs] =>
+    (* Server.getElection: a copy of the election state taken under elecMu (server.go) *)
+    match lookup "curElecID" fs with
+    | Some id => Some (VPtr [("master", match lookup "curMaster" fs with Some m => m | None => VStr "" end); ("ID", id)])
+    | None => None
+    end
   | _, [VNil] =>            (* nil-safe protobuf getter *)
     if String.prefix "Get" fn then Some VNil else None
   | _, [VPtr fs] =>
